@@ -38,7 +38,7 @@ IsPRef(x) == \E k \in 1..NP : x = "P" \o ToString(k)
 PRef(x) == CHOOSE k \in 1..NP : x = "P" \o ToString(k)
 IsRes(b) == \E k \in 1..NP : b = "res" \o ToString(k)
 ResOf(b) == CHOOSE k \in 1..NP : b = "res" \o ToString(k)
-Thenables == {"Tok", "Tthrow", "Tget", "Tmulti", "Tnc"}
+Thenables == {"Tok", "Tthrow", "Tget", "Tmulti", "Tnc", "Trthrow"}
 
 \* ---------------------------------------------------------------------------------------------------------------
 \* The core algorithms as functions on a state record S = [ps, lt, jobq, log, grp]; they return the new record.
@@ -211,6 +211,8 @@ RunThenable(j, rest) ==
              CASE t = "Tok" -> Commit(ResolveFn(SL, j.p, l, "tv"))
                [] t = "Tthrow" -> Commit(RejectFn(SL, j.p, l, "te"))                 \* then() throws before calling anything
                [] t = "Tmulti" -> Commit(ResolveFn(RejectFn(ResolveFn(SL, j.p, l, "m1"), j.p, l, "m2"), j.p, l, "m3"))
+               \* then() settles and THEN throws: the job passes the exception to the same (already latched) reject function
+               [] t = "Trthrow" -> Commit(RejectFn(ResolveFn(SL, j.p, l, "q1"), j.p, l, "qe"))
 
 RunReaction(j, rest) ==
   LET rc == j.r
